@@ -3,7 +3,7 @@ from .. import lib, runner
 
 PROP = "C03"
 THEOREMS = ["MemMap.translate_arith", "MemMap.all_within", "MemMap.all_sorted", "MemMap.decode_iff_reported", "MemMap.decode_none_iff", "MemMap.decodeFuel_eq", "MemMap.all_ids", "MemMap.find_eq_all", "RangeMap.get_exact"]
-IMPORTS = ["SocVerif"]
+IMPORTS = ["SocVerif.Props.C03"]
 
 
 def nontrivial(r):
